@@ -1572,7 +1572,10 @@ def main() -> int:
         # Loop through each target in the list.  Entries can specify a port number to use, otherwise the value provided on the command line (--port=N) will be used by default (set to 22 if --port is not used).
         target_servers = []
         for _, target in enumerate(aconf.target_list):
-            host, port = Utils.parse_host_and_port(target, default_port=aconf.port)
+            try:
+                host, port = Utils.parse_host_and_port(target, default_port=aconf.port)
+            except ValueError:
+                host, port = target, -1  # An entry whose port is not a number is an error of that entry only: its worker rejects the port.
             target_servers.append((host, port))
 
         # A ranked list of return codes.  Those with higher indices will take precedence over lower ones.  For example, if three servers are scanned, yielding WARNING, GOOD, and UNKNOWN_ERROR, the overall result will be UNKNOWN_ERROR, since its index is the highest.  Errors have highest priority, followed by failures, then warnings.
